@@ -91,9 +91,16 @@ func runC14(c *ctx) {
 			continue
 		}
 		bc := manager.NewBootstrapConfigForVerif(cfg[0], cfg[1], &v3core.Node{}, &manager.XDSServerConfig{})
+		// the same hosts live through all the table updates of this client (their key form and addresses change from
+		// table to table: literal only, then literal and fqdn with different addresses, ...): whatever the client
+		// remembers about an earlier table must not leak into the binding under the current one
+		var pool []string
+		for i := 0; i < 6; i++ {
+			pool = append(pool, genHost(r, 4))
+		}
 		for ti := 0; ti < 4; ti++ { // name-table updates over time
-			var hosts []string
-			for i := 0; i < 8; i++ {
+			hosts := append([]string{}, pool...)
+			for i := 0; i < 2; i++ {
 				hosts = append(hosts, genHost(r, 4))
 			}
 			var tbl []kv
